@@ -15,13 +15,14 @@ HEADER = ("From Coq Require Import List String Arith.\nFrom SM Require Import Ex
           " | LTypeErr => \"TypeError\" | LRuntimeError => \"RuntimeError\" | LFunction els => \"function \" ++ joinn els end.\n"
           "Definition the_net : lnet := {| elems := [0; 1; 2; 3]%nat;\n"
           "  declares_any := fun e => match e with 5 => false | _ => true end;\n"
-          "  declares_states := fun e => match e with 3 | 5 => false | _ => true end;\n"
-          "  needs := fun e => match e with 0 => [2; 1] | 1 => [0; 3; 4] | 2 => [0] | 4 => [1] | _ => [] end |}%nat.\n"
+          "  declares_states := fun e => match e with 3 | 5 | 6 => false | _ => true end;\n"
+          "  needs := fun e => match e with 0 => [2; 1] | 1 => [0; 3; 4; 6] | 2 => [0] | 4 => [1] | _ => [] end |}%nat.\n"
           "Definition run_life (ops : list lop) : list string := map show_lres (snd (lrun the_net (linit the_net) ops)).\n")
 
 # element ids: 0 L0, 1 L1, 2 O0 (mainstream origin), 3 D0 (congested destination),
-#              4 O1 (metered ramp added at N1 later), 5 D1 (plain destination replacing D0)
-NAMES = {0: "L0", 1: "L1", 2: "O0", 3: "D0", 4: "O1", 5: "D1"}
+#              4 O1 (metered ramp added at N1 later), 5 D1 (plain destination replacing D0),
+#              6 D2 (a second congested destination, attached later and never initialised on its own)
+NAMES = {0: "L0", 1: "L1", 2: "O0", 3: "D0", 4: "O1", 5: "D1", 6: "D2"}
 PARS = dict(T=10 / 3600, tau=18 / 3600, eta=60.0, kappa=40.0, delta=0.0122)
 # steps may be taken with other model parameters: the compiled function must be the one of the LATEST step
 PARS_V = [PARS, dict(PARS, tau=30 / 3600, eta=35.0, kappa=25.0), dict(PARS, tau=12 / 3600, eta=80.0, delta=0.02)]
@@ -43,7 +44,8 @@ class World:
                    1: Link(1, 2, 1.0, 180.0, 33.0, 100.0, 1.8, name="L1"),
                    2: MainstreamOrigin(name="O0"), 3: CongestedDestination(name="D0"),
                    4: (MeteredOnRamp(2000.0, name="O1") if ramp == "metered" else
-                       SimplifiedMeteredOnRamp(2000.0, name="O1")), 5: Destination(name="D1")}
+                       SimplifiedMeteredOnRamp(2000.0, name="O1")), 5: Destination(name="D1"),
+                   6: CongestedDestination(name="D2")}
         self.ramp = ramp
         self.net = Network()
         self.net.add_path([self.N[0], self.el[0], self.N[1], self.el[1], self.N[2]], origin=self.el[2],
@@ -61,7 +63,7 @@ class World:
         if e == 4:
             return {"w": np.array([3.0]), ("r" if self.ramp == "metered" else "q"): np.array([0.7 if self.ramp == "metered" else 900.0]),
                     "d": np.array([400.0])}
-        if e == 3:
+        if e in (3, 6):
             return {"d": np.array([20.0])}
         return {}
 
@@ -114,8 +116,8 @@ class World:
                     self.net.add_origin(self.el[4], self.N[1])
                 elif op[1] == 5:
                     self.net.add_destination(self.el[5], self.N[2])
-                elif op[1] == 3:
-                    self.net.add_destination(self.el[3], self.N[2])
+                elif op[1] in (3, 6):
+                    self.net.add_destination(self.el[op[1]], self.N[2])
                 return "ok"
             if k == "tofun":
                 F = self.cs.to_function(self.net, compact=0, T=PARS["T"])
@@ -148,10 +150,8 @@ def coq_op(op):
         return f"StepEl {op[1]}%nat"
     if k == "add":
         # add_destination replaces the destination of N2: the other one leaves the network
-        if op[1] == 5:
-            return "DropElem 3%nat; AddElem 5%nat"
-        if op[1] == 3:
-            return "DropElem 5%nat; AddElem 3%nat"
+        if op[1] in (3, 5, 6):
+            return "; ".join(f"DropElem {x}%nat" for x in (3, 5, 6) if x != op[1]) + f"; AddElem {op[1]}%nat"
         return f"AddElem {op[1]}%nat"
     return "ToFunction"
 
@@ -182,16 +182,11 @@ def random_history(rng, maxlen=10):
                 continue
             h.append(("stepelfail", rng.choice([0, 1])))
         elif r < 0.75:
-            e = rng.choice([4, 5, 3])
+            e = rng.choice([4, 5, 3, 6])
             h.append(("add", e))
-            if e == 5:
-                members.discard(3)
-                members.add(5)
-            elif e == 3:
-                members.discard(5)
-                members.add(3)
-            else:
-                members.add(4)
+            if e in (3, 5, 6):
+                members -= {3, 5, 6}
+            members.add(e)
         else:
             h.append(("tofun",))
     if not h or h[-1][0] != "tofun":
@@ -226,6 +221,9 @@ def directed_histories():
         [("stepall", "num"), ("init", 2, "sym"), T], [("stepall", "num"), ("init", 1, "sym"), T],
         [("add", 4), ("stepall", "sym"), ("init", 4, "sym"), T],
         [("add", 4), ("stepall", "sym"), ("init", 4, "sym"), ("stepel", 4, 1), T],
+        # a congested destination attached after the last step and never initialised
+        [("stepall", "sym"), ("add", 6), T], [("stepall", "sym"), ("add", 5), ("add", 6), T],
+        [("stepall", "sym"), ("add", 5), ("stepall", "sym"), ("add", 6), T], [("stepall", "sym"), ("add", 6), ("stepall", "sym"), T],
         # a step that fails leaves the element unstepped
         [("init", 0, "sym"), ("init", 1, "sym"), ("init", 2, "sym"), ("init", 3, "sym"), ("stepel", 0), ("stepel", 2), ("stepelfail", 1), T],
         [("stepall", "sym"), ("init", 1, "sym"), ("stepelfail", 1), T], [("stepall", "sym"), ("init", 0, "sym"), ("stepelfail", 0), T],
@@ -260,7 +258,7 @@ def run_C19(ctx):
                 shadow.apply(op, r)
                 out["coverage"]["evaluations"] += 1
                 if op[0] == "add":
-                    obs += ["ok", "ok"] if op[1] in (5, 3) else ["ok"]
+                    obs += ["ok", "ok", "ok"] if op[1] in (5, 3, 6) else ["ok"]
                 elif op[0] == "stepelfail":
                     if r != "ok":
                         out["failures"].append({"key": "C19:stepelfail", "history": h[:oi + 1], "sym": sym, "ramp": ramp,
@@ -324,14 +322,9 @@ class Shadow:
             if self.inited.get(op[1]):
                 self.stepped_after_init[op[1]] = True
         elif op[0] == "add":
-            if op[1] == 5:
-                self.members.discard(3)
-                self.members.add(5)
-            elif op[1] == 3:
-                self.members.discard(5)
-                self.members.add(3)
-            else:
-                self.members.add(op[1])
+            if op[1] in (3, 5, 6):
+                self.members -= {3, 5, 6}
+            self.members.add(op[1])
 
     def must_raise(self, W):
         for e in sorted(self.members):
@@ -339,7 +332,7 @@ class Shadow:
                 continue
             if not self.inited.get(e):
                 return f"uninitialised: element {NAMES[e]} has never been initialised"
-            if e != 3 and not self.stepped_after_init.get(e):
+            if e not in (3, 6) and not self.stepped_after_init.get(e):
                 return f"unstepped: element {NAMES[e]} was not stepped after its last initialisation"
         return None
 
